@@ -60,7 +60,8 @@ macro_rules! each_codec_type {
 			Option<(Vec<u8>, Box<[u16; 3]>)>, Vec<(u8, u32)>, Vec<Vec<u16>>, VecDeque<Vec<u8>>, Vec<Box<u16>>,
 			Vec<Rc<u8>>, Vec<BTreeMap<u8, u8>>, LinkedList<Vec<u32>>, Option<Vec<Option<Vec<u8>>>>,
 			Vec<NonZeroU128>, Vec<NonZeroU8>, [NonZeroU32; 3], VecDeque<NonZeroI16>, Box<[NonZeroU64; 2]>, Vec<NonZeroI128>,
-			Hdr, [Hdr; 3], [[Hdr; 2]; 2], Vec<Hdr>, Option<[Hdr; 1]>
+			Hdr, [Hdr; 3], [[Hdr; 2]; 2], Vec<Hdr>, Option<[Hdr; 1]>,
+			[u8; 20000], ([u32; 5000], u8), Box<[u16; 9000]>
 		);
 		each_seq_type!($f, $args);
 		each_feature_type!($f, $args);
@@ -271,6 +272,11 @@ fn main() {
 				each_codec_type!(enc_one, (&mut ctx));
 				ctx.prop = "C03".into();
 				each_codec_type!(dec_one, (&mut ctx));
+				// the types that exist only with an optional integration, also under the limit wrappers
+				ctx.prop = "C11".into();
+				each_feature_type!(dec_one, (&mut ctx));
+				ctx.prop = "C12".into();
+				each_feature_type!(dec_one, (&mut ctx));
 			},
 			"C05" => {
 				#[cfg(feature = "derive")]
@@ -379,7 +385,8 @@ fn main() {
 				#[cfg(feature = "bit-vec")]
 				drive_bitcap(&mut ctx);
 			},
-			"C08" | "C12" | "C19" => { each_codec_type!(dec_one, (&mut ctx)); },
+			"C08" | "C12" => { each_codec_type!(dec_one, (&mut ctx)); },
+			"C19" => { each_codec_type!(dec_one, (&mut ctx)); drivers::drive_cnt(&mut ctx); },
 			_ => { eprintln!("unknown prop {}", prop); std::process::exit(2) },
 		},
 		_ => { eprintln!("usage: vharness gen --prop ID --tier T --seed N --out FILE"); std::process::exit(2) },
